@@ -37,6 +37,14 @@ struct Case {
     post: StateJ,
     patch: Vec<OpJ>,
     prog: Vec<Program>,
+    #[serde(default)]
+    descent: std::collections::BTreeMap<String, Vec<absgraph::KeyJ>>,
+}
+
+pub type Descent = std::collections::BTreeMap<String, Vec<absgraph::KeyJ>>;
+
+pub fn descent_stack(descent: &Descent, w: &str) -> Vec<warp_core::AttachmentKey> {
+    descent.get(w).map(|ks| ks.iter().filter_map(absgraph::key_to_real).collect()).unwrap_or_default()
 }
 
 pub fn build_engine(pre: &WarpState, nrules: usize, kind: SchedulerKind, workers: usize) -> Result<Engine, String> {
@@ -60,12 +68,12 @@ pub struct TickOut {
 }
 
 /// Applies `seq` and commits; Err(..) carries (kind, detail) of a failed commit.
-pub fn run_tick(pre: &WarpState, nrules: usize, seq: &[CandJ], kind: SchedulerKind, workers: usize) -> Result<Result<TickOut, String>, String> {
+pub fn run_tick(pre: &WarpState, nrules: usize, seq: &[CandJ], descent: &Descent, kind: SchedulerKind, workers: usize) -> Result<Result<TickOut, String>, String> {
     let mut engine = build_engine(pre, nrules, kind, workers)?;
     let tx = engine.begin();
     for c in seq {
         let res = engine
-            .apply_in_warp(tx, ids::warp(&c.w), programs::rule_name(c.r), &ids::node(&c.n), &[])
+            .apply_in_warp(tx, ids::warp(&c.w), programs::rule_name(c.r), &ids::node(&c.n), &descent_stack(descent, &c.w))
             .map_err(|e| format!("apply failed: {e:?}"))?;
         if !matches!(res, ApplyResult::Applied) {
             return Err(format!("candidate {c:?} did not match in the real engine"));
@@ -104,14 +112,17 @@ pub fn check_case(inv: &Inverse, v: &Value) -> Value {
     for (kind, kname) in [(SchedulerKind::Radix, "radix"), (SchedulerKind::Legacy, "legacy")] {
         for workers in [1usize, 4] {
             let cfg = format!("{kname}/{workers}");
-            let out = match run_tick(&pre, case.prog.len(), &case.seq, kind, workers) {
+            let out = match run_tick(&pre, case.prog.len(), &case.seq, &case.descent, kind, workers) {
                 Err(e) => return json!({"verdict":"tool_error","detail":format!("{cfg}: {e}")}),
                 Ok(o) => o,
             };
             let out = match out {
                 Err(e) => {
                     if case.ok {
-                        drift.push(format!("{cfg}: model predicted a successful tick, real commit failed: {e}"));
+                        // every candidate is honest and applicable: the tick must commit
+                        // (post = pre + accepted effects); a failure is a violation, not drift
+                        return json!({"verdict":"violation","kind":"honest_tick_failed","group":group,
+                            "detail":format!("{cfg}: oracle predicts a committed tick, real commit failed: {}", &e[..e.len().min(300)])});
                     }
                     all_hashes.insert(cfg, json!({"failed": e.split(':').next().unwrap_or("") }));
                     continue;
